@@ -72,6 +72,7 @@ type wire struct {
 	filter   func(p *wpkt) bool  // packets for which faults are offered (nil = all)
 	blackhole [2]bool            // drop everything sent by endpoint i (silent peer)
 	killFn    func(p *wpkt) bool // deterministic drop rule applied at send time
+	delayFn   func(p *wpkt) time.Duration // deterministic extra delay applied at send time
 	envPreempt bool
 	onQuiescent func()
 }
@@ -118,6 +119,13 @@ func (w *wire) send(from int, b []byte) {
 	if w.killFn != nil && w.killFn(p) {
 		w.record("kill", p)
 		return
+	}
+	if w.delayFn != nil {
+		if d := w.delayFn(p); d > 0 {
+			p.due += d
+			p.tag = "delayed"
+			w.record("late", p)
+		}
 	}
 	w.inflight = append(w.inflight, p)
 	w.sortInflight()
